@@ -875,6 +875,13 @@ func boundedByLen(env *intervalEnv, v ssa.Value, facts ssau.FactSet, depth int) 
 	switch x := v.(type) {
 	case *ssa.Convert:
 		return boundedByLen(env, x.X, facts, depth+1)
+	case *ssa.BinOp:
+		// a length minus something that is not negative is still at most that length
+		if x.Op == token.SUB && boundedByLen(env, x.X, facts, depth+1) {
+			if yr, ok := env.rangeOf(x.Y, facts, map[ssa.Value]bool{}, 0); ok && yr.lo.Sign() >= 0 {
+				return true
+			}
+		}
 	case *ssa.Phi:
 		for i, e := range x.Edges {
 			if _, c := e.(*ssa.Const); c {
@@ -971,4 +978,290 @@ func NumAlloc(sc Scope, resid []residual, min int) func(p *load.Program) *report
 		}
 		return r
 	}
+}
+
+// ---------------------------------------------------------------------------
+// NUM-USUB
+
+// NumUSub implements NUM-USUB: a subtraction in an unsigned type does not wrap
+// below zero: the subtrahend is known not to exceed the minuend.
+func NumUSub(sc Scope, resid []residual, min int) func(p *load.Program) *report.RuleResult {
+	return func(p *load.Program) *report.RuleResult {
+		r := newResult("NUM-USUB", "every subtraction carried out in an unsigned integer type in the "+sc.Name+" (remaining lengths, positions, IDs) cannot wrap below zero: the intervals of the operands, a dominating comparison of the two operands, or the length contract of the callee that produced the subtrahend (a reader never consumes more than its budget) order them", min)
+		used := map[int]bool{}
+		for _, fn := range sortedFuncs(p) {
+			if !sc.has(p, fn) || len(fn.Blocks) == 0 {
+				continue
+			}
+			var env *intervalEnv
+			for _, b := range fn.Blocks {
+				for _, in := range b.Instrs {
+					bo, ok := in.(*ssa.BinOp)
+					if !ok || bo.Op != token.SUB {
+						continue
+					}
+					tr, ok := typeRange(bo.Type())
+					if !ok || tr.lo.Sign() != 0 {
+						continue
+					}
+					if _, isC := bo.X.(*ssa.Const); isC {
+						if _, isC2 := bo.Y.(*ssa.Const); isC2 {
+							continue
+						}
+					}
+					if onlyDiagnostic(bo, 0) {
+						continue // an offset computed for an error message
+					}
+					if env == nil {
+						env = newIntervalEnv(p, fn)
+					}
+					env.notes = map[string]bool{}
+					env.at = in
+					facts := env.ff.At(in)
+					name := p.FuncName(fn)
+					what := sprintf("%s - %s (%s)", describeOperand(bo.X), describeOperand(bo.Y), types.TypeString(bo.Type(), shortQual))
+					if by := usubOK(env, bo, facts); by != "" {
+						r.OK(name, instrPos(p, in), what, by)
+						continue
+					}
+					if i := matchResidual(resid, name, what); i >= 0 {
+						used[i] = true
+						r.Add(report.Obligation{Func: name, Pos: instrPos(p, in), What: what, Status: report.Discharged, By: "residual table: " + resid[i].reason})
+						continue
+					}
+					xr, _ := env.rangeOf(bo.X, facts, map[ssa.Value]bool{}, 0)
+					yr, _ := env.rangeOf(bo.Y, facts, map[ssa.Value]bool{}, 0)
+					r.Bad(name, instrPos(p, in), what, sprintf("minuend in %s, subtrahend in %s and nothing orders them: the unsigned difference wraps to a huge value when the subtrahend is larger (a length or position that then passes every later 'does it fit' test)", xr, yr))
+				}
+			}
+		}
+		for i, rs := range resid {
+			r.Suppressions = append(r.Suppressions, report.Suppression{Rule: "NUM-USUB", Symbol: rs.fn + " " + rs.conv, Reason: rs.reason, Used: used[i]})
+		}
+		return r
+	}
+}
+
+func usubOK(env *intervalEnv, bo *ssa.BinOp, facts ssau.FactSet) string {
+	xr, okx := env.rangeOf(bo.X, facts, map[ssa.Value]bool{}, 0)
+	yr, oky := env.rangeOf(bo.Y, facts, map[ssa.Value]bool{}, 0)
+	if okx && oky && xr.lo.Cmp(yr.hi) >= 0 {
+		return "operand intervals " + xr.String() + " - " + yr.String()
+	}
+	xp, yp := stripConv(ssau.Path(bo.X)), stripConv(ssau.Path(bo.Y))
+	for f := range facts {
+		a, b := stripConv(f.Path), stripConv(f.Arg)
+		switch {
+		case a == xp && b == yp && (f.Kind == "ge" || f.Kind == "gt" || f.Kind == "eq"),
+			a == yp && b == xp && (f.Kind == "le" || f.Kind == "lt" || f.Kind == "eq"):
+			return "dominated by a comparison of the two operands"
+		}
+	}
+	// x - consumed where consumed is the second result of a budgeted reader called with budget x:
+	// readVarUintLen(max) / readVarIntLen(max) never consume more than max bytes
+	if ex, ok := bo.Y.(*ssa.Extract); ok {
+		if c, ok := ex.Tuple.(*ssa.Call); ok {
+			if f := c.Call.StaticCallee(); f != nil && env.p != nil && env.p.InModule(f) && len(c.Call.Args) >= 2 {
+				if bi2 := consumedAtMostBudget(env.p, f, ex.Index); bi2 >= 0 && bi2 < len(c.Call.Args) {
+					budget := c.Call.Args[bi2]
+					if budget == bo.X || stripConv(ssau.Path(budget)) == xp {
+						if _, isLoad := bo.X.(*ssa.UnOp); !isLoad || noKillBetween(env, c, bo, ssau.Path(bo.X)) {
+							return "the subtrahend is what " + env.p.FuncName(f) + " consumed of exactly this budget, which it never exceeds"
+						}
+					}
+				}
+			}
+		}
+	}
+	return ""
+}
+
+var consumedCache = map[*ssa.Function]map[int]int{}
+
+// consumedAtMostBudget: result #ri of f is a byte count that, on every return
+// with a nil error, is at most parameter #pi (established by a dominating
+// comparison in f); returns pi or -1.
+func consumedAtMostBudget(p *load.Program, f *ssa.Function, ri int) int {
+	if m, ok := consumedCache[f]; ok {
+		if v, ok := m[ri]; ok {
+			return v
+		}
+	} else {
+		consumedCache[f] = map[int]int{}
+	}
+	consumedCache[f][ri] = -1
+	if len(f.Blocks) == 0 {
+		return -1
+	}
+	res := f.Signature.Results()
+	ei := res.Len() - 1
+	if ei < 1 || ri >= ei || !ssau.IsErrorType(res.At(ei).Type()) {
+		return -1
+	}
+	env := newIntervalEnv(p, f)
+	for pi, prm := range f.Params {
+		if _, ok := typeRange(prm.Type()); !ok {
+			continue
+		}
+		okAll, any := true, false
+		for _, ret := range returns(f) {
+			if !ssau.IsNilConst(ret.Results[ei]) {
+				continue
+			}
+			any = true
+			fs := env.ff.At(ret)
+			rv := ret.Results[ri]
+			rr, okr := env.rangeOf(rv, fs, map[ssa.Value]bool{}, 0)
+			pr, okp := env.rangeOf(prm, fs, map[ssa.Value]bool{}, 0)
+			if okr && okp && rr.hi.Cmp(pr.lo) <= 0 {
+				continue
+			}
+			rp, pp := stripConv(ssau.Path(rv)), "p."+prm.Name()
+			found := false
+			// rv = base + 1 with base < bound, bound <= the parameter
+			if bo, isB := rv.(*ssa.BinOp); isB && bo.Op == token.ADD {
+				if k, isK := ssau.ConstInt(bo.Y); isK && k == 1 {
+					bp := stripConv(ssau.Path(bo.X))
+					for fct := range fs {
+						a := stripConv(fct.Path)
+						if a != bp || fct.Kind != "lt" {
+							continue
+						}
+						if boundAtMostParam(env, f, fct.Arg, prm) {
+							found = true
+						}
+					}
+				}
+			}
+			// rv is a phi/constant bounded the same way on each edge
+			if !found {
+				for fct := range fs {
+					a := stripConv(fct.Path)
+					if a == rp && (fct.Kind == "le" || fct.Kind == "lt") && boundAtMostParam(env, f, fct.Arg, prm) {
+						found = true
+					}
+				}
+			}
+			if !found {
+				if k, isK := ssau.ConstInt(rv); isK {
+					if pr2, okp2 := env.rangeOf(prm, fs, map[ssa.Value]bool{}, 0); okp2 && bi(k).Cmp(pr2.lo) <= 0 {
+						found = true
+					}
+				}
+			}
+			for fct := range fs {
+				a, b := stripConv(fct.Path), stripConv(fct.Arg)
+				if (a == rp && b == pp && (fct.Kind == "le" || fct.Kind == "lt" || fct.Kind == "eq")) || (a == pp && b == rp && (fct.Kind == "ge" || fct.Kind == "gt" || fct.Kind == "eq")) {
+					found = true
+				}
+			}
+			if !found {
+				okAll = false
+			}
+		}
+		if okAll && any {
+			consumedCache[f][ri] = pi
+			return pi
+		}
+	}
+	return -1
+}
+
+// onlyDiagnostic: every use of v ends in an error value (a field of a struct
+// that implements error, or an argument of a fmt formatting call).
+func onlyDiagnostic(v ssa.Value, depth int) bool {
+	refs := v.Referrers()
+	if refs == nil || depth > 4 {
+		return false
+	}
+	n := 0
+	for _, u := range *refs {
+		switch x := u.(type) {
+		case *ssa.DebugRef:
+			continue
+		case *ssa.Store:
+			if x.Val != v {
+				return false
+			}
+			fa, ok := x.Addr.(*ssa.FieldAddr)
+			if ok {
+				if implementsError(fa.X.Type()) {
+					n++
+					continue
+				}
+				return false
+			}
+			// element of the []interface{} built for a variadic fmt call
+			if ia, ok := x.Addr.(*ssa.IndexAddr); ok {
+				if al, ok := ia.X.(*ssa.Alloc); ok && al.Comment == "varargs" {
+					n++
+					continue
+				}
+			}
+			return false
+		case *ssa.MakeInterface:
+			if !onlyDiagnostic(x, depth+1) {
+				return false
+			}
+			n++
+		case *ssa.Convert:
+			if !onlyDiagnostic(x, depth+1) {
+				return false
+			}
+			n++
+		case *ssa.BinOp:
+			// offset arithmetic that itself only ends in an error value
+			if (x.Op != token.ADD && x.Op != token.SUB) || !onlyDiagnostic(x, depth+1) {
+				return false
+			}
+			n++
+		default:
+			return false
+		}
+	}
+	return n > 0
+}
+
+// USubResiduals: one named subtraction, one reason each.
+var USubResiduals = []residual{
+	{"(*bitstream).readN", "p.n - conv<uint64>(len(", "len(bs) never exceeds n: bs starts with min(n, 64 KiB) elements and each round appends min(n - len(bs), len(bs)); the loop returns when they are equal (a loop invariant between a phi and a parameter)"},
+	{"(*tokenizer).unread", "p.t^.pos - k:1", "unread follows a read of the same character (pos >= 1); pos is only ever used as the offset in error messages"},
+}
+
+func implementsError(t types.Type) bool {
+	errT := types.Universe.Lookup("error").Type().Underlying().(*types.Interface)
+	return types.Implements(t, errT) || types.Implements(types.NewPointer(ssau.Deref(t)), errT)
+}
+
+// boundAtMostParam: the value with path bpath is the parameter itself, or a
+// phi of the parameter and constants that the parameter exceeds on their edge
+// (if max > 10 { max = 10 }).
+func boundAtMostParam(env *intervalEnv, f *ssa.Function, bpath string, prm *ssa.Parameter) bool {
+	bpath = stripConv(bpath)
+	if bpath == "p."+prm.Name() {
+		return true
+	}
+	for _, b := range f.Blocks {
+		for _, in := range b.Instrs {
+			ph, ok := in.(*ssa.Phi)
+			if !ok || stripConv(ssau.Path(ph)) != bpath {
+				continue
+			}
+			for i, e := range ph.Edges {
+				if e == ssa.Value(prm) {
+					continue
+				}
+				k, isK := ssau.ConstInt(e)
+				if !isK {
+					return false
+				}
+				pr, okp := env.rangeOf(prm, env.ff.OnPhiEdge(ph, i), map[ssa.Value]bool{}, 0)
+				if !okp || pr.lo.Cmp(bi(k)) < 0 {
+					return false
+				}
+			}
+			return true
+		}
+	}
+	return false
 }
